@@ -343,6 +343,15 @@ impl Ctx {
         let mut fps: Vec<u64> = (0..nt.min(200_000)).map(|i| fp(&(class, i))).collect();
         self.nontrivial_many(&mut fps);
         for x in v["violations"].as_array().cloned().unwrap_or_default() {
+            // the worker may be unable to read the known-findings file (it dropped its privileges and the
+            // file can lie below a directory only the owner may enter): listed signatures are matched here
+            let raw = x["sig"].as_str().unwrap_or("?").to_string();
+            if self.is_known(&raw) {
+                let mut g = self.kf_hits.lock().unwrap();
+                let e = g.entry(raw).or_insert_with(|| (0, json!({"kind": x["kind"], "case": x["case"], "detail": x["detail"]})));
+                e.0 += 1;
+                continue;
+            }
             let f = Failure::new(format!("{}|{}", x["sig"].as_str().unwrap_or("?"), class), x["detail"].as_str().unwrap_or("").to_string());
             self.violation(x["kind"].as_str().unwrap_or("?"), x["case"].clone(), f);
         }
